@@ -63,7 +63,11 @@ CHECKS = {
  "C17": dict(tech=E1 + " (protocol model with a man in the middle)",
    text="stateright enumeration of all adversary choices for R_A->B and R_B->A ({pass, re-randomised, -R, 2R, P1, off-curve}^2) per configuration on the real exch_step_1a/1b/2a with seam-fixed ephemeral scalars, plus honest paths for every klen 1..=128: honest runs give SK_A = SK_B = reference KDF(ID_A||ID_B||R_A||R_B||g1||g2||g3) (GM/T 0044.5 example included); off-curve R refused; any other altered R makes the keys differ; no panic.",
    note="Trusted base: refmodels::sm9::exchange (three reference pairings per configuration). The optional confirmation hashes of GM/T 0044.3 are not implemented by the library and not part of the property.", ref="§3 C17"),
+ "C20": dict(tech=E2 + ", each call in a watched child process (panic capture + wall-clock watchdog)",
+   text="About 27 000 calls (quick): for every listed entry point every input length 0..=200 (0..=400 for SM9 decryption) x {0x00,0xFF,seeded}, every truncation and every single-byte corruption (4 kinds per position) of a valid encoding, trailing bytes, hex strings of every length with a non-hex character at every position, PEM truncations/corruptions, SM9 (h,S) from bytes in affine / Jacobian / infinity form, boundary private keys whose accepted instances must sign, encrypt, decrypt and agree on a key to completion. Outcome must be Ok or Err; panic, arithmetic overflow (overflow checks are on), abort and time-out (5 s per call) are violations.",
+   note="Trusted base: the child-process supervisor (BEGIN/END protocol, restart after a kill). Whether an Ok was deserved is judged by C04/C06/C07/C19, so a lenient decoder cannot raise an alarm here. One known finding is listed (mod_n_from_hash on fewer than 40 bytes: no error channel). ZUC/EEA/EIA are not in the statement's list and are not swept.", ref="§3 C20"),
 }
+
 
 
 
